@@ -1,6 +1,8 @@
 package main
 
 import (
+	"encoding/asn1"
+	"math/big"
 	"crypto"
 	"crypto/x509"
 	"fmt"
@@ -152,6 +154,18 @@ func init() {
 					// non-minimal length form of the outer SEQUENCE
 					nm := append([]byte{0x30, 0x81, sig[1]}, sig[2:]...)
 					run("long-form-length", msg, nm, false)
+				}
+				if kp.Kind == "ec" {
+					// the same (r, s) pair in the fixed-width r || s spelling (IEEE P1363 / JWS / WebCrypto), in the curve's width and in the
+					// other curves' widths: COSE signatures of this library are ASN.1 DER, nothing else
+					var parsed struct{ R, S *big.Int }
+					if _, err := asn1.Unmarshal(sig, &parsed); err == nil {
+						for _, w := range []int{(kp.EC.Curve.Params().BitSize + 7) / 8, 32, 48, 66} {
+							if parsed.R.BitLen() <= 8*w && parsed.S.BitLen() <= 8*w {
+								run(fmt.Sprintf("raw-r-s-%d", w), msg, append(fixed(parsed.R, w), fixed(parsed.S, w)...), false)
+							}
+						}
+					}
 				}
 				if kp.Kind == "rsa" {
 					// genuine signatures whose first octet is zero (about one in 256): sign until a few are found
